@@ -2,6 +2,7 @@ package keyfile
 
 import (
 	"crypto/rand"
+	"errors"
 	"os"
 
 	"github.com/aperturerobotics/bifrost/crypto"
@@ -13,37 +14,40 @@ import (
 // Uses PEM format and ed25519 keys.
 // May return a private key + an error.
 func OpenOrWritePrivKey(le *logrus.Entry, privKeyPath string) (crypto.PrivKey, error) {
-	var privKey crypto.PrivKey
-	var err error
 	if _, err := os.Stat(privKeyPath); err != nil {
-		if os.IsNotExist(err) {
-			if le != nil {
-				le.Debug("generating priv key")
-			}
-			privKey, _, err = crypto.GenerateEd25519Key(rand.Reader)
-			if err != nil {
-				return privKey, err
-			}
-			dat, err := keypem.MarshalPrivKeyPem(privKey)
-			if err != nil {
-				return privKey, err
-			}
-			if err := os.WriteFile(privKeyPath, dat, 0o600); err != nil {
-				return privKey, err
-			}
-			if le != nil {
-				le.Debug("wrote private key")
-			}
+		if !os.IsNotExist(err) {
+			return nil, err
 		}
-	} else {
-		dat, err := os.ReadFile(privKeyPath)
+		if le != nil {
+			le.Debug("generating priv key")
+		}
+		privKey, _, err := crypto.GenerateEd25519Key(rand.Reader)
 		if err != nil {
 			return privKey, err
 		}
-		privKey, err = keypem.ParsePrivKeyPem(dat)
+		dat, err := keypem.MarshalPrivKeyPem(privKey)
 		if err != nil {
 			return privKey, err
 		}
+		if err := os.WriteFile(privKeyPath, dat, 0o600); err != nil {
+			return privKey, err
+		}
+		if le != nil {
+			le.Debug("wrote private key")
+		}
+		return privKey, nil
 	}
-	return privKey, err
+
+	dat, err := os.ReadFile(privKeyPath)
+	if err != nil {
+		return nil, err
+	}
+	privKey, err := keypem.ParsePrivKeyPem(dat)
+	if err != nil {
+		return privKey, err
+	}
+	if privKey == nil {
+		return nil, errors.New("no pem private key found in key file")
+	}
+	return privKey, nil
 }
